@@ -403,6 +403,16 @@ class Corr(object):
             return
         self.add('read' + tag, case, proto.line(C02, Atom('read'), text), real_read(text), post=_sort_rev)
 
+    def add_reparse(self, text, case):
+        """the specification-side parse (reparseX o tokenize) against XMLParser + EmptyTagFilter"""
+        from genshi.input import XML
+        from genshi.output import EmptyTagFilter
+        try:
+            real = [Atom('ok'), [xev_wire(e) for e in EmptyTagFilter()(iter(list(XML(text))))]]
+        except Exception:  # noqa
+            real = proto.N
+        self.add('reparse', case, proto.line(C02, Atom('reparse'), text), real)
+
     def add_enc(self, text, enc, case):
         self.add('encode', case, proto.line(C02, Atom('enc'), enc_ranges(enc), text), real_enc(text, enc))
 
@@ -440,6 +450,13 @@ class Corr(object):
                         self.res.disagreements.append({'stream': stream, 'case': case,
                                                        'model': 'inside docOK, docTextOK, repMarkup(ascii) but read(encode(serialize)) != canon',
                                                        'real': 'theorem xml_roundtrip_partial'})
+                if len(model) >= 8:
+                    inid, iholds = (str(model[6]) == 'T'), (str(model[7]) == 'T')
+                    self.res.count('theorem-idem-domain:%s:%s' % (stream, 'inside' if inid else 'outside'))
+                    if inid and not iholds:
+                        self.res.disagreements.append({'stream': stream, 'case': case,
+                                                       'model': 'inside docOK and idemOK but flatten(reparse(flatten)) != flatten',
+                                                       'real': 'theorem ser_idempotent_partial'})
                 continue
             if post:
                 model = post(model)
@@ -603,6 +620,7 @@ def shard(arg):
             out = ''.join(_ser(events))
             texts.append(out)
             corr.add_text(out, case)
+            corr.add_reparse(out, {'kind': 'read', 'text': out})
             enc = ENCODINGS[(i // 4) % 4]
             corr.add_enc(out, enc, {'kind': 'enc', 'text': out, 'enc': enc})
     # source documents without HTML entities through the reader (single quotes, hex references, spacing)
